@@ -17,6 +17,7 @@
   instant; `ih m` = the head report of `m`'s push.
 -/
 import MayVerif.Proof.Queue.TimerList.Refs
+import MayVerif.Proof.Queue.TimerList.Peek
 namespace MayVerif.TimerList
 
 /-- **Each entry is consumed exactly once, popped in push order or removed.** In every reachable state:
@@ -258,6 +259,140 @@ theorem tl_no_use_after_free (n : Nat) (sched : List (Tid × Env)) (t : Tid) (m 
     (hm : m ∈ touches (run (init n) sched).sh ((run (init n) sched).pcs t)) : (run (init n) sched).sh.freed m = false :=
   touches_not_freed _ (inv_reach n sched) t m hm
 
+/-! ### Visibility: what `peek` (and `is_empty`) may answer while producers are in flight
+
+  `L` is the list of the entries that have been swapped in and neither popped nor removed; `rd m` = the push of node `m` has
+  performed its last shared access (it returns with the next step); `lk m` = the producer of `m` has stored `prev.next`.
+  `takesOut` / `noTakeOut` (Proof/Queue/TimerList/Peek.lean): the consumer executes none of the two steps by which an entry
+  leaves the list (the tail move of pop / pop_if, the unlink of remove) along a schedule. -/
+
+/-- **`peek` sees every completed push** (in fact every push that has got as far as its swap). If a step of `peek` makes it
+    answer `None` (`ret (-1)`), then that step is the `head == tail` test, and at that instant the list has no member: every
+    entry that was ever swapped in – in particular every entry whose push has completed (`rd m`) – has been popped or
+    removed before. No interleaving of concurrent pushes (e.g. an earlier producer that sits between its swap and its
+    store of `prev.next`) hides a completed, unconsumed, unremoved entry from `peek`. -/
+theorem tl_peek_sees_completed_push (n : Nat) (sched : List (Tid × Env)) (e : Env) (s' : St)
+    (hpc : (run (init n) sched).pcs 0 = .kHead ∨ (run (init n) sched).pcs 0 = .kNext)
+    (hs : step (run (init n) sched) 0 e = some s') (hnone : s'.pcs 0 = .ret (-1)) :
+    let s := run (init n) sched
+    s.pcs 0 = .kHead ∧ s.sh.head = s.sh.tail ∧ s.sh.L = [] ∧
+    (∀ m, 2 ≤ m → m < s.sh.nid → m ∈ s.sh.popped ∨ m ∈ s.sh.removed) ∧
+    (∀ m, s.sh.rd m = true → m ∈ s.sh.popped ∨ m ∈ s.sh.removed) := by
+  intro s
+  have hi : Inv s := inv_reach n sched
+  have hl : InvL s := invL_reach n sched
+  have hk : InvK s := invK_reach n sched
+  obtain ⟨_, hc⟩ := peek_step s s' e hi hl hk hpc hs
+  have hint : ∀ v : Nat, (Pc.ret (v : Int)) ≠ .ret (-1) := by intro v h; injection h with h; omega
+  rcases hc with ⟨h1, h2, _⟩ | ⟨m, _, h | h | h⟩
+  · have hall : ∀ m, 2 ≤ m → m < s.sh.nid → m ∈ s.sh.popped ∨ m ∈ s.sh.removed := by
+      intro m h2' hlt
+      have h0 := hi.hS m h2' hlt
+      have hnm : s.sh.st m ≠ .member := by
+        intro hc; have := (hl.l1 m).mpr hc; rw [h2] at this; simp at this
+      cases hc : s.sh.st m with
+      | none => exact absurd hc h0
+      | member => exact absurd hc hnm
+      | popped => exact Or.inl ((hl.l3 m).mpr hc)
+      | removed => exact Or.inr ((hl.l5 m).mpr hc)
+    refine ⟨h1, (head_tail_iff s hi hl).mpr h2, h2, hall, ?_⟩
+    intro m hrd
+    have := hi.rL m hrd
+    exact hall m this.2.1 this.2.2
+  · rw [h.2] at hnone; contradiction
+  · rw [h.2.2.1] at hnone; contradiction
+  · rw [h.2.2] at hnone; exact absurd hnone (hint _)
+
+/-- **`peek` of a non-empty list returns the oldest entry** – possibly after waiting for an in-flight producer, never `None`.
+    If the list has a member when `peek` makes its `head == tail` test, or `peek` is already past that test (then the list
+    is non-empty: part of the statement), the step does not answer `None` and does not change the list; with `m` the oldest
+    member: the test goes on to the read of the stub's `next`; that read spins exactly while the producer of `m` sits
+    between its swap and its store of `prev.next` (`lk m = false`, and that producer is at `pPrev` / `pLink` with the stub
+    `m - 1` as its local `prev`), and once `m` is linked it returns the value pushed with `m`. -/
+theorem tl_nonempty_peek_some (n : Nat) (sched : List (Tid × Env)) (e : Env) (s' : St)
+    (hpc : (run (init n) sched).pcs 0 = .kHead ∨ (run (init n) sched).pcs 0 = .kNext)
+    (hs : step (run (init n) sched) 0 e = some s')
+    (hne : (run (init n) sched).sh.L ≠ [] ∨ (run (init n) sched).pcs 0 = .kNext) :
+    let s := run (init n) sched
+    s.sh.L ≠ [] ∧ s'.sh.L = s.sh.L ∧ s'.pcs 0 ≠ .ret (-1) ∧
+    ∃ m, s.sh.L.head? = some m ∧
+      ((s.pcs 0 = .kHead ∧ s'.pcs 0 = .kNext) ∨
+       (s.pcs 0 = .kNext ∧ s.sh.lk m = false ∧ s'.pcs 0 = .kNext ∧
+         (s.pcs (s.sh.own m) = .pPrev m (m - 1) ∨ s.pcs (s.sh.own m) = .pLink m (m - 1))) ∨
+       (s.pcs 0 = .kNext ∧ s.sh.lk m = true ∧ s'.pcs 0 = .ret (s.sh.pv m))) := by
+  intro s
+  have hi : Inv s := inv_reach n sched
+  have hl : InvL s := invL_reach n sched
+  have hk : InvK s := invK_reach n sched
+  have hne' : s.sh.L ≠ [] := by
+    rcases hne with h | h
+    · exact h
+    · exact hk h
+  obtain ⟨hsh, hc⟩ := peek_step s s' e hi hl hk hpc hs
+  have hint : ∀ v : Nat, (Pc.ret (v : Int)) ≠ .ret (-1) := by intro v h; injection h with h; omega
+  rcases hc with ⟨_, h2, _⟩ | ⟨m, hm, h⟩
+  · exact absurd h2 hne'
+  · refine ⟨hne', by rw [hsh], ?_, m, hm, h⟩
+    rcases h with h | h | h
+    · rw [h.2]; intro hc; contradiction
+    · rw [h.2.2.1]; intro hc; contradiction
+    · rw [h.2.2]; exact hint _
+
+/-- **Entries leave the list only through the consumer's own pop / pop_if / remove.** Along any schedule in which actor 0
+    executes neither the tail move of a pop / pop_if nor the unlink of a remove (`noTakeOut`: everything else is allowed –
+    pushes by anybody, `peek`, `is_empty`, failing pops and removes, `is_link` / drops of handles by any actor), every
+    member stays a member. -/
+theorem tl_members_leave_only_by_consumer (n : Nat) (sched sched2 : List (Tid × Env))
+    (hno : noTakeOut (run (init n) sched) sched2 = true) :
+    ∀ m, m ∈ (run (init n) sched).sh.L → m ∈ (run (init n) (sched ++ sched2)).sh.L := by
+  rw [run_append]
+  exact run_keeps_members _ sched2 (inv_reach n sched) (invL_reach n sched) hno
+
+/-- **`is_empty() = false`, then `peek()`: never `None`** (what `TimeOutList::schedule_timer` relies on when it does
+    `peek().unwrap()`). If `is_empty` answered `false` (`ret 0` out of its only step `eHead`) and afterwards – along any
+    schedule `sched2` of all actors in which the consumer takes nothing out – the consumer is inside `peek`, then no step of
+    that `peek` answers `None`: it waits (`kNext`) or returns the value of the oldest member. -/
+theorem tl_is_empty_false_then_peek_some (n : Nat) (sched sched2 : List (Tid × Env)) (e1 e : Env) (s1 s' : St)
+    (hE : (run (init n) sched).pcs 0 = .eHead) (hs1 : step (run (init n) sched) 0 e1 = some s1) (hfalse : s1.pcs 0 = .ret 0)
+    (hno : noTakeOut s1 sched2 = true)
+    (hpc : (run s1 sched2).pcs 0 = .kHead ∨ (run s1 sched2).pcs 0 = .kNext)
+    (hs : step (run s1 sched2) 0 e = some s') :
+    s'.pcs 0 ≠ .ret (-1) ∧
+    (s'.pcs 0 = .kNext ∨ ∃ m, (run s1 sched2).sh.L.head? = some m ∧ s'.pcs 0 = .ret ((run s1 sched2).sh.pv m)) := by
+  have hi0 := inv_reach n sched
+  have hl0 := invL_reach n sched
+  have hk0 := invK_reach n sched
+  have hi1 := inv_step _ _ _ _ hi0 hs1
+  have hl1 := invL_step _ _ _ _ hi0 hl0 hs1
+  have hk1 := invK_step _ _ _ _ hi0 hl0 hk0 hs1
+  -- the list was not empty when `is_empty` looked
+  have hne1 : s1.sh.L ≠ [] := by
+    obtain ⟨sh', pc', hts, rfl⟩ := step_at _ s1 0 e1 hs1
+    rw [hE] at hts
+    simp only [tstep, Option.some.injEq, Prod.mk.injEq] at hts
+    obtain ⟨rfl, rfl⟩ := hts
+    simp only [upd_same, Pc.ret.injEq] at hfalse
+    simp only []
+    intro hL
+    have := (head_tail_iff _ hi0 hl0).mpr hL
+    simp [b2i, this] at hfalse
+  obtain ⟨hi2, hl2, hk2⟩ := all_run s1 sched2 hi1 hl1 hk1
+  have hne2 : (run s1 sched2).sh.L ≠ [] := by
+    intro hL
+    cases hL1 : s1.sh.L with
+    | nil => exact hne1 hL1
+    | cons a r =>
+      have := run_keeps_members s1 sched2 hi1 hl1 hno a (by rw [hL1]; simp)
+      rw [hL] at this
+      simp at this
+  obtain ⟨_, hc⟩ := peek_step _ s' e hi2 hl2 hk2 hpc hs
+  have hint : ∀ v : Nat, (Pc.ret (v : Int)) ≠ .ret (-1) := by intro v h; injection h with h; omega
+  rcases hc with ⟨_, h2, _⟩ | ⟨m, hm, h | h | h⟩
+  · exact absurd h2 hne2
+  · exact ⟨by rw [h.2]; intro hc; contradiction, Or.inl h.2⟩
+  · exact ⟨by rw [h.2.2.1]; intro hc; contradiction, Or.inl h.2.2.1⟩
+  · exact ⟨by rw [h.2.2]; exact hint _, Or.inr ⟨m, hm, h.2.2⟩⟩
+
 /-! ### Defect F12 of the pinned tree (`init n false` = the pinned `Queue::drop`), and the same schedule on the fixed model -/
 
 def f12sched : List (Tid × Env) :=
@@ -318,5 +453,32 @@ example : let s := run (init 2) [(1, .push 5), (1, .go), (1, .go), (1, .go)]
 example : let s := run (init 2) ([(1, .push 5), (1, .go), (1, .go), (1, .go)] ++ [(0, .pop)] ++ List.replicate 8 (0, .go) ++
       [(0, .push 6)] ++ List.replicate 5 (0, .go) ++ [(0, .pop)] ++ List.replicate 8 (0, .go) ++ [(1, .aba)])
     s.pcs 1 = .ret 1 ∧ s.sh.st 2 = .popped := by decide
+
+-- visibility: the schedule of seeded change C19_b on the model – a producer has swapped its node in and not yet linked it;
+-- `is_empty` answers false (`ret 0`), the following `peek` passes its test and waits at the stub's `next` (it does not say
+-- None); the producer is where `tl_nonempty_peek_some` says (`pPrev 2 1`); once it has linked, `peek` returns the value
+def c19bSched : List (Tid × Env) := [(1, .push 5), (1, .go), (0, .isEmpty), (0, .go)]
+example : let s := run (init 2) c19bSched
+    s.pcs 0 = .ret 0 ∧ s.pcs 1 = .pPrev 2 1 ∧ s.sh.L = [2] ∧ s.sh.lk 2 = false ∧ s.sh.next 1 = 0 := by decide
+example : let s := run (init 2) (c19bSched ++ [(0, .go), (0, .peek), (0, .go), (0, .go), (0, .go)])
+    s.pcs 0 = .kNext ∧ s.pcs (s.sh.own 2) = .pPrev 2 1 ∧ s.sh.L.head? = some 2 ∧ s.sh.lk 2 = false := by decide
+example : (run (init 2) (c19bSched ++ [(0, .go), (0, .peek), (0, .go), (0, .go), (1, .go), (1, .go), (0, .go)])).pcs 0 = .ret 5 := by decide
+-- hypotheses of `tl_is_empty_false_then_peek_some`: `is_empty` at its step with a non-empty list, then a schedule without
+-- take-out steps (here with the rest of the push and a second, complete push of the consumer's own) that ends inside `peek`
+example : let s0 := run (init 2) [(1, .push 5), (1, .go), (0, .isEmpty)]
+    s0.pcs 0 = .eHead ∧ (step s0 0 .go).map (fun s1 => s1.pcs 0) = some (.ret 0) ∧
+    (step s0 0 .go).map (fun s1 => noTakeOut s1 [(0, .go), (1, .go), (0, .push 6), (0, .go), (0, .go), (0, .go), (0, .go), (0, .go), (0, .peek)]) = some true ∧
+    (step s0 0 .go).map (fun s1 => (run s1 [(0, .go), (1, .go), (0, .push 6), (0, .go), (0, .go), (0, .go), (0, .go), (0, .go), (0, .peek)]).pcs 0) = some .kHead := by decide
+-- `noTakeOut` is not trivially true: a pop's tail move is a take-out step
+example : noTakeOut (run (init 1) ([(0, .push 5)] ++ List.replicate 5 (0, .go))) ([(0, .pop)] ++ List.replicate 5 (0, .go)) = false := by decide
+-- hypotheses of `tl_peek_sees_completed_push`: `peek` answers None – after the only entry was popped (`popped = [2]`, `rd 2`)
+example : let s := run (init 1) ([(0, .push 5)] ++ List.replicate 5 (0, .go) ++ [(0, .pop)] ++ List.replicate 8 (0, .go) ++ [(0, .peek)])
+    s.pcs 0 = .kHead ∧ (step s 0 .go).map (fun s' => s'.pcs 0) = some (.ret (-1)) ∧ s.sh.rd 2 = true ∧ s.sh.popped = [2] := by decide
+-- a completed push behind an in-flight one (the second history of the C19_b demo): producer 1 has swapped and stalls, producer 2
+-- has pushed completely (`rd 3`); `peek` does not answer None, it waits for producer 1 and then shows producer 1's entry
+example : let s := run (init 3) ([(1, .push 5), (1, .go)] ++ [(2, .push 6)] ++ List.replicate 5 (2, .go) ++ [(0, .peek), (0, .go), (0, .go)])
+    s.pcs 0 = .kNext ∧ s.sh.rd 3 = true ∧ s.sh.L = [2, 3] ∧ s.sh.lk 2 = false := by decide
+example : (run (init 3) ([(1, .push 5), (1, .go)] ++ [(2, .push 6)] ++ List.replicate 5 (2, .go) ++ [(0, .peek), (0, .go), (0, .go)] ++
+    [(1, .go), (1, .go), (0, .go)])).pcs 0 = .ret 5 := by decide
 
 end MayVerif.TimerList
